@@ -371,6 +371,25 @@ def _exc(e):
     return type(e).__name__
 
 
+def _settle(root):
+    """a run that raised from a starting node returns while children submitted to executors may still
+    be out: wait for them (and for their done-callbacks) so that the snapshot is of a quiescent graph"""
+    import time
+    used = [n for n in all_nodes(root) if n.future is not None]
+    if not used:
+        return
+    for n in used:
+        try:
+            n.future.result(timeout=5)
+        except BaseException as e:  # noqa
+            if isinstance(e, _Timeout):
+                raise
+    t0 = time.time()
+    while any(n.running for n in used) and time.time() - t0 < 3:
+        time.sleep(0.005)
+    time.sleep(0.03)
+
+
 def prepare_state(case):
     """build the graph and bring it into the requested execution state; -> (root, target node)"""
     nodes.reset()
@@ -387,6 +406,7 @@ def prepare_state(case):
             raise
         except Exception:
             pass
+        _settle(root)
         nodes.FAIL.clear()
     for op in case.get("post", []):
         n = at_path(root, op[1])
